@@ -290,7 +290,7 @@ def generate(workdir, repo, scratch, env, tier, seed, log=print):
                 harness_src.append(f"static {static_r}: &[Route] = &[ {', '.join(rexprs)} ];")
                 bounds = (f"constructed by the real registration code: app {name}, method {m}, routes {[p for p, _ in mroutes]}, "
                           f"registration orders {ks} of {norders} gave this tree ({nn} nodes); path 1..={nb} bytes, '%' excluded")
-                harness_src.append(f'// @verif prop=C01 tier=quick timeout=1500 mem=14 unwindset="search_target\\.0 :{mk + 2};search_target\\.1 :{md + 3}" bounds="{bounds}"')
+                harness_src.append(f'// @verif prop=C01 tier=quick timeout=1500 mem=8 unwindset="search_target\\.0 :{mk + 2};search_target\\.1 :{md + 3}" bounds="{bounds}"')
                 harness_src.append("#[kani::proof]\n#[kani::unwind(10)]")
                 harness_src.append(f"fn c01_built_{tag}() {{ check::<{nb}>(&{static_t}, {static_r}, false, false) }}\n")
                 info["harnesses"] += 1
